@@ -87,14 +87,20 @@ func C13sio(c *vh.Ctx) {
 	variants := []string{"inline", "inline/json-syntax", "json-file", "json-file/json-syntax", "yaml-file", "yaml-file/json-syntax",
 		"json-file-noext/json-syntax", "json-file-odd-ext/json-syntax", "json-file-noext", "yaml-file-yml/json-syntax", "yaml-file-noext/json-syntax", "yaml-file-noext"}
 	if c.Replay != "" {
+		var rc c13rCase
+		if c.LoadReplay(&rc) == nil && rc.Options != "" {
+			c13sioRestart(c, nil)
+			return
+		}
 		var cs c13sioCase
 		if c.LoadReplay(&cs) == nil && cs.Spec != nil {
 			one(cs.Spec, cs.Variant)
 		}
 		return
 	}
-	c.Rule("(sio host loader) every specification of a family (two branches with every ordered pair of 11 patterns of every JSON shape - map with variable, bare string, bare variable, strings that look like JSON literals, number, bool, array with a variable, null values) given to sio.ResolveSpecSource inline, as a JSON file and as a YAML file (file:// URL; files called spec.json / spec / door.spec and spec.yaml / spec.yml / spec), with inline patterns and with JSON-text patterns under patternSyntax json: the complete behaviour tree over all message sequences up to the bound over 11 messages must equal that of the Go-structure rendering.")
+	c.Rule("(sio host loader) every specification of a family (two branches with every ordered pair of 11 patterns of every JSON shape - map with variable, bare string, bare variable, strings that look like JSON literals, number, bool, array with a variable, null values) given to sio.ResolveSpecSource inline, as a JSON file and as a YAML file (file:// URL; files called spec.json / spec / door.spec and spec.yaml / spec.yml / spec), with inline patterns and with JSON-text patterns under patternSyntax json: the complete behaviour tree over all message sequences up to the bound over 11 messages must equal that of the Go-structure rendering. Through the state file: a machine created from an inline specification that uses the spec-level settings (plain, patternSyntax json, a custom errorNode, actionErrorBranches, actionErrorNode, several at once), in a crew whose host (sio.Stdio) writes its state file after every message and restarts from it at every choice of message boundaries out of 7: the emissions for 5 messages (matching, failing actions, again) equal those of a crew that never restarts.")
 	var idx uint64
+	c13sioRestart(c, &idx)
 	for _, as := range rspecs.Family() {
 		for _, v := range variants {
 			idx++
